@@ -388,8 +388,12 @@ type cand struct {
 
 func (ex *Exec) armedTimers() []*VTimer {
 	var ts []*VTimer
+	limit := ex.Horizon
+	if ex.setup {
+		limit = ex.Now + 1e5 // set-up phases only run timers that are due now (write flushers)
+	}
 	for _, t := range ex.timers {
-		if t.Armed && t.Deadline <= ex.Horizon {
+		if t.Armed && t.Deadline <= limit {
 			ts = append(ts, t)
 		}
 	}
@@ -445,7 +449,7 @@ func (ex *Exec) candidates(prev int) (cs []cand, nThreads int, def int, prevEn b
 	def = 0
 	if nNormal == 0 {
 		// a timer that is due "now" (write flushers) goes before fault threads
-		if len(tms) > 0 && (tms[0].Deadline <= ex.Now+1e6 || nThreads == 0) {
+		if len(tms) > 0 && (tms[0].Deadline <= ex.Now+1e5 || nThreads == 0) {
 			def = nThreads
 		}
 	}
